@@ -735,9 +735,34 @@ CONST_ENSURES = {
 }
 
 
+def _lit_bytes(lit):
+    """bytes of a Rust byte-string literal body (no raw strings)"""
+    out, i = [], 0
+    while i < len(lit):
+        c = lit[i]
+        if c == '\\':
+            n = lit[i + 1]
+            if n == 'x':
+                out.append(int(lit[i + 2:i + 4], 16)); i += 4; continue
+            out.append({'n': 10, 'r': 13, 't': 9, '0': 0, '\\': 92, '"': 34, "'": 39}[n]); i += 2; continue
+        out.append(ord(c)); i += 1
+    return out
+
+
 def hoisted_const(name, ty, init):
     if re.fullmatch(r'[0-9][0-9a-fA-Fx_]*', init):
         return 'pub const %s: %s = %s;' % (name, ty, init)
+    # value contracts derived from the literal itself (the same bytes go into the generated Kani leaf leaf_const_values)
+    m = re.fullmatch(r'\*b"((?:[^"\\]|\\.)*)"', init)
+    if m:
+        bs = _lit_bytes(m.group(1))
+        return '#[verifier::external_body]\npub exec const %s: %s ensures %s@ == seq![%s] { %s }' % (
+            name, ty, name, ', '.join(('0x%02xu8' % b) if k == 0 else ('0x%02x' % b) for k, b in enumerate(bs)), init)
+    m = re.fullmatch(r'u64(?:::|_)from_ne_bytes\(\*b"((?:[^"\\]|\\.)*)"\)', init)
+    if m:
+        bs = _lit_bytes(m.group(1))
+        return '#[verifier::external_body]\npub exec const %s: %s ensures %s == le64(seq![%s]) { %s }' % (
+            name, ty, name, ', '.join(('0x%02xu8' % b) if k == 0 else ('0x%02x' % b) for k, b in enumerate(bs)), init)
     if name not in CONST_ENSURES:
         raise AnchorLost('fn-local const %s has no stated value contract' % name)
     return '#[verifier::external_body]\npub exec const %s: %s ensures %s { %s }' % (name, ty, CONST_ENSURES[name], init)
